@@ -26,10 +26,10 @@ inductive Kind
   deriving DecidableEq, Repr, Inhabited
 
 /-- what follows `_stop_process()`: the rest of `_restart_process`, or the rest of `stop()` (with the
-    watcher thread it captured) -/
+    watcher threads it captured: `_process_watchers`, every watcher that may still be running) -/
 inductive After
   | restart
-  | stop (w : Option Nat)
+  | stop (ws : List Nat)
   deriving DecidableEq, Repr, Inhabited
 
 inductive Pc
@@ -52,8 +52,8 @@ inductive Pc
   | stAcq                            -- `with self._stopping_lock:`
   | stCond                           -- `event_debouncer.stop()`: `with self._cond:`
   | stRAcq                           -- `with self._restart_lock:`
-  | stJoinDeb (w : Option Nat)       -- `event_debouncer.join()`
-  | stJoinW (w : Nat)                -- `process_watcher.join()`
+  | stJoinDeb (ws : List Nat)        -- `event_debouncer.join()`
+  | stJoinW (w : Nat) (rest : List Nat)   -- `for process_watcher in process_watchers: process_watcher.join()`
   -- ProcessWatcher.run
   | wWait (dl : Nat)                 -- `stopped_event.wait(timeout=0.1)`
   -- EventDebouncer.run
@@ -103,6 +103,7 @@ structure State where
   procs : List Proc := []              -- pid = index
   process : Option Nat := none         -- `self.process`
   watcher : Option Nat := none         -- `self.process_watcher` (tid)
+  watchers : List Nat := []            -- `self._process_watchers` (tids): the watchers that may still be running
   debTid : Option Nat := none          -- `self.event_debouncer` (tid)
   events : Nat := 0                    -- `len(debouncer._events)`
   notified : Bool := false
@@ -244,19 +245,21 @@ def startProcess (s : State) (i : Nat) (inStart : Bool) : State :=
     if s.cfg.restartOnExit then
       let w := s1.threads.length
       let pid := s.procs.length
-      let s2 : State := { s1 with threads := s1.threads ++ [{ kind := .watcher pid, pc := .begin }], watcher := some w }
+      -- `_process_watchers = [w for w in _process_watchers if w.is_alive()] + [process_watcher]`
+      let s2 : State := { s1 with threads := s1.threads ++ [{ kind := .watcher pid, pc := .begin }], watcher := some w,
+                                  watchers := s1.watchers.filter (fun x => !s1.isDone x) ++ [w] }
       s2.setPc i (if inStart then .saStarted else .rStarted)
     else fin s1
 
 /-- what follows `_stop_process` -/
 def afterStopProc (s : State) (i : Nat) : After → State
   | .restart => startProcess s i false
-  | .stop w =>
+  | .stop ws =>
     let s1 := { s with restartOwner := none }
-    if s1.debTid.isSome then s1.setPc i (.stJoinDeb w)
-    else match w with
-      | some w => s1.setPc i (.stJoinW w)
-      | none => stopFinish s1 i
+    if s1.debTid.isSome then s1.setPc i (.stJoinDeb ws)
+    else match ws with
+      | w :: rest => s1.setPc i (.stJoinW w rest)
+      | [] => stopFinish s1 i
 
 /-- `self.process = None; finally: self._is_process_stopping = False` and on -/
 def stopProcDone (s : State) (i : Nat) (a : After) : State :=
@@ -315,7 +318,7 @@ def enabledT (s : State) (t : Thread) : Bool :=
   | .stCond => !s.condHeld
   | .stRAcq => s.restartOwner.isNone
   | .stJoinDeb _ => (match s.debTid with | some d => s.isDone d | none => true)
-  | .stJoinW w => s.isDone w
+  | .stJoinW w _ => s.isDone w
   | .wWait dl => t.stopFlag || dl ≤ s.clock
   | .dAcq => !s.condHeld
   | .dWaitFirst => s.notified && !s.condHeld
@@ -357,12 +360,15 @@ def stepT (s : State) (i : Nat) (t : Thread) : State :=
   | .stCond =>
     let s1 := match s.debTid with | some d => s.setStopFlag d | none => s
     (s1.notify).setPc i .stRAcq
-  | .stRAcq => ({ s with restartOwner := some i } : State).setPc i (.spAcq (.stop s.watcher))
-  | .stJoinDeb w =>
-    (match w with
-     | some w => s.setPc i (.stJoinW w)
-     | none => stopFinish s i)
-  | .stJoinW _ => stopFinish s i
+  | .stRAcq => ({ s with restartOwner := some i } : State).setPc i (.spAcq (.stop s.watchers))
+  | .stJoinDeb ws =>
+    (match ws with
+     | w :: rest => s.setPc i (.stJoinW w rest)
+     | [] => stopFinish s i)
+  | .stJoinW _ rest =>
+    (match rest with
+     | w :: rest => s.setPc i (.stJoinW w rest)
+     | [] => stopFinish s i)
   | .wWait _ =>
     if t.stopFlag then s.setPc i .done
     else (match t.kind with | .watcher pid => watcherLoop s i pid | _ => s.setPc i .done)
